@@ -1,5 +1,6 @@
 import BadgerModel.Oracle
 import BadgerProofs.Lemmas.Oracle
+import BadgerProofs.Lemmas.OracleManaged
 /-!
 # C02 — read-write transactions are serializable (SSI conflict detection), oracle level
 
@@ -14,8 +15,9 @@ timestamp (`allocated` in DESIGN §6; never pruned), in allocation order.
 Fingerprints are arbitrary numbers: "up to 64-bit fingerprint collisions" is built in (a
 collision is a genuine overlap for the model).
 
-Managed mode is *not* covered by these theorems (`C02_sound_managed` is future work; the model
-contains the managed-mode branches and they are exercised by the correspondence harness).
+Managed mode (`Reach true true n s`): `C02_sound_managed` / `C02_complete_managed` under the API
+contract "`discardTs ≤ readTs` of the committing transaction" (stated hypothesis; without it the
+statement is false by design, `C02_managed_needs_contract`).
 -/
 namespace Badger
 
@@ -280,6 +282,56 @@ theorem C02_serial {n : Nat} {s : Sys} (h : Reach false true n s) (e : HistEntry
       · exact absurd hk (hI.ssi rfl e he c hc h3 h2 fp hfp)
       · exact h3
   · simp [hk]
+
+
+/-! ## Managed mode -/
+
+/-- **Soundness in managed mode, under the API contract.** In every reachable state of a managed
+    database with conflict detection, if `CommitAt(ts)` of an active transaction `x` is accepted and
+    the discard timestamp has not been moved past `x`'s read timestamp (`discardTs ≤ x.readTs`, the
+    documented contract of `SetDiscardTs`), then no transaction committed with a timestamp above
+    `x.readTs` wrote a fingerprint that `x` read. -/
+theorem C02_sound_managed {n : Nat} {s : Sys} (h : Reach true true n s) (tid : Nat) (x : TxnSt)
+    (hx : s.txns[tid]? = some x) (ts cts : Nat) (hcontract : s.o.discardTs ≤ x.t.readTs)
+    (hok : (s.o.newCommitTs { x.t with commitTs := ts }).2.2 = .ok cts) :
+    cts = ts ∧ ∀ c ∈ s.hist, x.t.readTs < c.ts → ∀ fp ∈ x.t.reads, fp ∉ c.conflictKeys := by
+  have hI := ReachM.inv h
+  rw [Oracle.newCommitTs_managed _ _ hI.managed hI.detect] at hok
+  by_cases hcf : s.o.hasConflict { x.t with commitTs := ts } = true
+  · rw [if_pos hcf] at hok; cases hok
+  · rw [if_neg hcf] at hok
+    split at hok
+    · cases hok
+    · simp only [CommitResult.ok.injEq] at hok
+      refine ⟨hok.symm, fun c hc hlt fp hfp => ?_⟩
+      have hcf' : s.o.hasConflict { x.t with commitTs := ts } = false := by simpa using hcf
+      have hle := hI.lcLe
+      have hin := hI.kept c hc (by omega)
+      exact (Oracle.hasConflict_eq_false _ _).mp hcf' _ hin hlt fp hfp
+
+/-- **Completeness in managed mode**: a rejected `CommitAt` has a witness in the history. -/
+theorem C02_complete_managed {n : Nat} {s : Sys} (h : Reach true true n s) (t : Txn)
+    (hcf : (s.o.newCommitTs t).2.2 = .conflict) :
+    ∃ fp ∈ t.reads, ∃ c ∈ s.hist, t.readTs < c.ts ∧ fp ∈ c.conflictKeys := by
+  have hI := ReachM.inv h
+  rw [Oracle.newCommitTs_managed _ _ hI.managed hI.detect] at hcf
+  by_cases hc : s.o.hasConflict t = true
+  · obtain ⟨c, hcm, hlt, fp, hfp, hmem⟩ := (Oracle.hasConflict_eq_true _ _).mp hc
+    obtain ⟨c0, hc0, e⟩ := hI.fromHist c hcm
+    subst e
+    exact ⟨fp, hfp, c0, hc0, hlt, hmem⟩
+  · rw [if_neg hc] at hcf
+    split at hcf <;> cases hcf
+
+/-- The contract is needed: transaction 0 reads fingerprint 1 at read timestamp 5, transaction 1
+    commits a write of 1 at 7, the user moves `discardTs` to 9 (past 0's read timestamp), and
+    `CommitAt(10)` of transaction 0 is accepted although 7 ∈ (5, 10) wrote what it read. -/
+theorem C02_managed_needs_contract :
+    ((Sys.opened true true 0).runLabels
+      [.beginAt 5 true, .read 0 1, .write 0 2, .beginAt 5 true, .write 1 1, .commitAt 1 7,
+       .setDiscardTs 9]).map (fun s => ((s.txns[0]?).map (fun x => (s.o.newCommitTs { x.t with commitTs := 10 }).2.2),
+         s.hist.map (fun c => (c.ts, c.conflictKeys)), s.o.discardTs)) =
+    some (some (.ok 10), [(7, [1])], 9) := by decide
 
 /-! ## Non-vacuity: concrete reachable histories -/
 
